@@ -16,13 +16,16 @@ NAMES4 = {"A": [0, 3, 1, 2], "B": [0, 2, 1, 3], "C": [3, 2, 1, 0]}     # the dri
 # five layouts on a 2x2 grid in which A <-> B needs three hops (odd multi-hop route with the spare buffer)
 # the driver's potential grid: 2-D group {A: v_parallel_2d, B: mode_solve}, single-direction groups {C: v_parallel_1d}, {D: poloidal}
 NAMESG = {"A": [0, 2, 1], "B": [1, 2, 0], "C": [0, 2, 1], "D": [2, 1, 0]}
+NAMESH = {"A": [2, 1, 0], "B": [0, 1, 2], "C": [0, 2, 1], "D": [1, 2, 0]}        # with swapper "groups2"
 NAMES5 = {"A": [0, 1, 2, 3], "C": [0, 3, 2, 1], "D": [1, 3, 2, 0], "E": [1, 3, 0, 2], "B": [1, 2, 3, 0]}
 CONFIGS = [([4, 3, 5, 4], [2, 2], NAMES5), ([4, 6, 5], [2, 2], NAMESG), ([5, 6, 6], [2, 3], NAMESG), ([4, 5, 6], [2, 2], NAMES3), ([3, 4, 5], [1, 1], NAMES3), ([5, 4, 6], [2, 1], NAMES3), ([4, 6, 5], [1, 2], NAMES3),
            ([6, 5, 7], [3, 2], NAMES3), ([4, 4, 5, 6], [2, 2], NAMES4), ([3, 5, 4, 6], [1, 3], NAMES4), ([5, 4, 4, 5], [2, 1], NAMES4),
            # over-decomposed grids: more processes than points along a direction in SOME layouts (blocks of length 0)
            ([2, 5, 4], [3, 2], NAMES3), ([5, 2, 3, 2], [2, 3], NAMES4),
            # ... and with data ranks that own nothing in ANY layout (they must still take part in every collective)
-           ([1, 4, 1], [2, 2], NAMES3)]
+           ([1, 4, 1], [2, 2], NAMES3),
+           # a layout swapper whose groups hold two layouts each: routes of three steps across the groups
+           ([4, 6, 5], [2, 3], NAMESH), ([5, 4, 6], [3, 2], NAMESH)]
 
 
 def mc_cfg(hassave, maxlen, maxver, dump, view, intact="IntactNone"):
@@ -45,6 +48,11 @@ def grid_job(comm, shape, nprocs, layouts, hassave, dtype, histories, out, swapp
         from pygyro.model.layout import LayoutSwapper
         grp = [{"A": layouts["A"], "B": layouts["B"]}, {"C": layouts["C"]}, {"D": layouts["D"]}]
         h = LayoutSwapper(comm, grp, [list(nprocs), nprocs[0], nprocs[1]], eta, "B")
+    elif swapper == "groups2":
+        # two groups of two layouts each (on (n1, n2) and on n1): A <-> D needs three steps through both groups
+        from pygyro.model.layout import LayoutSwapper
+        grp = [{"A": layouts["A"], "B": layouts["B"]}, {"C": layouts["C"], "D": layouts["D"]}]
+        h = LayoutSwapper(comm, grp, [list(nprocs), nprocs[0]], eta, "A")
     elif swapper:
         from pygyro.model.layout import LayoutSwapper
         h = LayoutSwapper(comm, [layouts], [list(nprocs)], eta, list(layouts)[0])
@@ -173,7 +181,7 @@ def run(ctx):
                     sub = sub + [DRIVER]
                 if not sub:
                     continue
-                swapper = "groups" if layouts is NAMESG else (ci % 3 == 2 and ci > 2)
+                swapper = "groups" if layouts is NAMESG else "groups2" if layouts is NAMESH else (ci % 3 == 2 and ci > 2)
                 n = int(np.prod(nprocs))
                 out = [[] for _ in range(n)]
                 res = MPI.run(n, grid_job, policy=rng.choice(["asc", "desc", "random", "rr"]), seed=rng.randint(0, 10 ** 6),
